@@ -19,6 +19,7 @@ GInit == Init /\ hist = <<>> /\ wakes = 0 /\ pollseq = [k \in Keys |-> <<>>]
 Yields == "no_yield" \notin Dev /\ npend + 1 > Cardinality(streams')
 GNext ==
   \/ \E k \in Keys : Inj /\ Insert(k) /\ Wk /\ Log([a |-> "Insert", k |-> k]) /\ UNCHANGED pollseq
+  \/ \E k \in Keys : Inj /\ Reinsert(k) /\ Wk /\ Log([a |-> "Reinsert", k |-> k]) /\ UNCHANGED pollseq
   \/ \E k \in Keys : Inj /\ Produce(k) /\ UNCHANGED wakes /\ Log([a |-> "Produce", k |-> k]) /\ UNCHANGED pollseq
   \/ \E k \in Keys : Inj /\ left[k] <= 1 /\ Close(k) /\ UNCHANGED wakes /\ Log([a |-> "Close", k |-> k]) /\ UNCHANGED pollseq
   \/ \E k \in Keys : Inj /\ Fire(k) /\ Wk /\ Log([a |-> "Fire", k |-> k]) /\ UNCHANGED pollseq
@@ -27,7 +28,8 @@ GNext ==
   \/ \E k \in Keys : Inj /\ delivered[k] >= 1 /\ Remove(k) /\ UNCHANGED wakes /\ Log([a |-> "Remove", k |-> k]) /\ UNCHANGED pollseq
   \/ Begin /\ UNCHANGED wakes /\ Log([a |-> "Begin"]) /\ UNCHANGED pollseq
   \/ L1 /\ UNCHANGED wakes /\ Log([a |-> "L1", res |-> pc', k |-> IF cur' = <<>> THEN "" ELSE cur'[2], snap |-> Snap]) /\ UNCHANGED pollseq
-  \/ PollStream /\ wakes' = wakes + (IF exh /\ wslot THEN 1 ELSE 0) /\ Log([a |-> "PollStream", res |-> pc', selfwake |-> exh])
+  \/ PollStream /\ wakes' = wakes + (IF exh /\ wslot /\ cgen = conn[cur[2]] THEN 1 ELSE 0)
+        /\ Log([a |-> "PollStream", res |-> pc', selfwake |-> (exh /\ cgen = conn[cur[2]])])
         /\ pollseq' = [pollseq EXCEPT ![cur[2]] = Append(@, cur[1])]
   \/ L2 /\ UNCHANGED wakes /\ Log([a |-> "L2", k |-> cur[2], snap |-> Snap]) /\ UNCHANGED pollseq
   \/ L3 /\ wakes' = wakes + (IF Yields /\ heap # {} THEN 1 ELSE 0) /\ Log([a |-> "L3", res |-> pc', snap |-> Snap]) /\ UNCHANGED pollseq
